@@ -345,6 +345,28 @@ def facts(repo):
     else:
         raise TranslateError("classes carrying granular_markings whose _check_object_constraints skips the base check: %s" % unchecked)
     F["overrides_checked"] = n_over
+    # 8. what the marking functions ask new_version to change: keyword names of every call
+    changed = []
+    n_calls = 0
+    for m in ("granular_markings", "object_markings"):
+        for fn in mods[m].values():
+            for n in ast.walk(fn):
+                if isinstance(n, ast.Call) and isinstance(n.func, ast.Name) and n.func.id == "new_version":
+                    n_calls += 1
+                    if len(n.args) != 1 or not isinstance(n.args[0], ast.Name) or n.args[0].id != "obj":
+                        raise TranslateError("%s: unrecognised new_version call %s" % (m, up(n)))
+                    for kw in n.keywords:
+                        if kw.arg is None:
+                            raise TranslateError("%s: new_version called with **kwargs: %s" % (m, up(n)))
+                        if kw.arg == "allow_custom":
+                            if up(kw.value) != "True":
+                                raise TranslateError("%s: new_version allow_custom is %s" % (m, up(kw.value)))
+                        elif kw.arg not in changed:
+                            changed.append(kw.arg)
+    if n_calls == 0:
+        raise TranslateError("no new_version call found in the marking modules")
+    F["nv_changed"] = sorted(changed)
+    F["nv_calls"] = n_calls
     return F
 
 
@@ -363,8 +385,9 @@ def translate(repo, _py=None):
     lines = [
         "(* Gen/MarkingFacts.v -- GENERATED by translators/tr_markings.py from the source text of",
         "   stix2/markings/*.py, stix2/base.py, stix2/properties.py, stix2/v20, stix2/v21.  Do not edit. *)",
-        "From Coq Require Import String.",
-        "From V Require Import Model.Markings.",
+        "From Coq Require Import String List.",
+        "From V Require Import Base.UString Model.Markings.",
+        "Import ListNotations.",
         "",
         "(* the variant of the model that the source text denotes *)",
         "Definition src_cfg : cfg := mkcfg %s." % " ".join(F[f] for f in FIELDS),
@@ -374,6 +397,11 @@ def translate(repo, _py=None):
         "",
         "(* number of _check_object_constraints overrides in classes carrying granular_markings that were inspected *)",
         "Definition src_constraint_overrides : nat := %d." % F["overrides_checked"],
+        "",
+        "(* the properties the marking functions ask versioning.new_version to change: keyword names of the %d" % F["nv_calls"],
+        "   new_version(obj, <name>=..., allow_custom=True) calls in granular_markings.py and object_markings.py *)",
+        "Definition src_nv_changed_keys : list V.Base.UString.ustring := [%s]." % "; ".join(
+            "V.Base.UString.u %s" % coq_string(k) for k in F["nv_changed"]),
         "",
     ]
     return "\n".join(lines), F
